@@ -73,16 +73,30 @@ Section DftDefs.
      `pin`, `pout` (new-array execute, fftw_execute_dft) transforms memory.  A Section variable;
      what is assumed about it is the hypothesis guru_contract of Proofs/FftwDftProofs.v. *)
   Variable fftw_exec : guru_call -> Z -> Z -> mem -> mem.
+  (* The external library, planning: creating a plan with the recorded arguments may itself write to
+     the arrays (measuring planners run trial transforms on them).  A Section variable; what is assumed
+     about it is the hypothesis plan_contract of Proofs/FftwDftProofs.v (FFTW manual 4.3.2: no write when
+     the flags contain FFTW_ESTIMATE or FFTW_WISDOM_ONLY -- planning_preserves_arrays). *)
+  Variable fftw_plan_effect : guru_call -> mem -> mem.
+
+  (* a reference planner for the flags that do NOT promise to leave the arrays alone: it clears every cell
+     of both arrays (what FFTW 3.3.10's measuring planner is observed to do).  Used only to show that the
+     flag matters (C15_planner_flag_needed). *)
+  Definition ref_plan_effect (g : guru_call) (m : mem) : mem :=
+    if planning_preserves_arrays (g_flags g) then m
+    else fun a =>
+      if existsb (fun c => (a =? g_in g + c_in c) || (a =? g_out g + c_out c)) (guru_cells (g_dims g) (g_hdims g))
+      then c0 else m a.
 
   (* Running the external calls of one front-end call: a plan is created (NULL, hence no result,
-     when FFTW rejects the dimensions), executed, destroyed; a plan still alive at the end is a leak
-     and counts as no result. *)
+     when FFTW rejects the dimensions or is in wisdom-only mode; the planner may touch memory),
+     executed, destroyed; a plan still alive at the end is a leak and counts as no result. *)
   Fixpoint run_events (evs : list fftw_event) (plan : option guru_call) (m : mem) : option mem :=
     match evs with
     | [] => match plan with None => Some m | Some _ => None end
     | EvPlan g :: r =>
         match plan with
-        | None => if guru_kosher g then run_events r (Some g) m else None
+        | None => if plan_nonnull g then run_events r (Some g) (fftw_plan_effect g m) else None
         | Some _ => None
         end
     | EvExecute pin pout :: r =>
